@@ -257,6 +257,14 @@ def check_case(case):
         return 'fail', [('construct-exception:' + exc_sig(e), repr(e))]
     if not isinstance(raw, (bytes, bytearray)):
         return 'fail', [('construct-returns:%s' % type(raw).__name__, 'Update.construct returned %r' % (raw,))]
+    # the octets are a function of the value: encoding the same object once more gives the same message (an encoder that
+    # rewrites its argument, or remembers something from the call before, does not)
+    try:
+        again = Update.construct(msg, asn4)
+    except Exception as e:
+        again = repr(e)
+    if again != raw:
+        return 'fail', [('construct-not-repeatable', 'first %s, second %s' % (bytes(raw).hex()[:200], again.hex()[:200] if isinstance(again, (bytes, bytearray)) else again))]
     try:
         frames = rc.split_frames(raw)
         assert len(frames) == 1 and frames[0][0] == rc.UPDATE
